@@ -975,7 +975,8 @@ static void int_text_test(long n) {
   auto one = [&](long long v) {
     if (v == 0) return;
     char buf[64]; DAVID_GAY_GFMT::g_fmt(buf, (double)v, 0);
-    std::printf("M gint %lld\nZ %lld %s\n", v, v, buf);
+    fmt::Locale loc; const char *p = buf; double back = loc.strtod(p);     // the reader's own number parser
+    std::printf("M gint %lld\nZ %lld %s %s\n", v, v, buf, hexd(back).c_str());
   };
   long long p10[16]; p10[0] = 1; for (int i = 1; i < 16; ++i) p10[i] = p10[i - 1] * 10;
   for (int L = 1; L <= 15; ++L) for (int z = 0; L + z <= 15; ++z) for (int r = 0; r < 3; ++r) {
